@@ -14,9 +14,10 @@ EXPLANATION = (
     "raises KeyError) and maps by name, with exactly the property's exceptions (selected AUTO_HEAT/AUTO_COOL -> AUTO, active -> HEAT/COOL; "
     "selected INTELLIGENT_AUTO_x -> INTELLIGENT_AUTO, active -> x), tables being identified through the getter that uses them; R2 every update_* "
     "stores the new record on every path on which it can differ from the stored one; R3 getter provenance: each public attribute returns exactly "
-    "its field of the stored record (through its table where one exists); R4 status frames are dispatched by the record's own id to that entity's "
-    "update method and unknown ids are skipped without ending the loop; R5 AT5 limits follow the mode; R6 error details are exposed only under "
-    "has_error() and the stored text is cleared when a status without error arrives."
+    "its field of the stored record (through its table where one exists); R4 status frames are dispatched by the record's own id to that entity's"
+    " update method and unknown ids are skipped without ending the loop, and the dispatch is not narrowed by guards one generation has and the "
+    "other lacks; R5 AT5 limits follow the mode; R6 error details are exposed only under has_error() and the stored text is cleared when a status"
+    " without error arrives."
 )
 ASSUMPTIONS = ["Enum members are compared by identity; dict lookup of a missing key raises KeyError"]
 FLOORS = {"C10.R1": 14, "C10.R2": 10, "C10.R3": 40, "C10.R4": 8, "C10.R5": 6, "C10.R6": 6}
